@@ -11,8 +11,8 @@ import (
 // Site is one joint assignment of two loop-carried variables: on edge Pred -> Block the variables
 // receive V1 and V2 (a value equal to the header phi itself means "unchanged").
 type Site struct {
-	Pred  *ssa.BasicBlock
-	Block *ssa.BasicBlock
+	Pred   *ssa.BasicBlock
+	Block  *ssa.BasicBlock
 	V1, V2 ssa.Value
 }
 
@@ -105,7 +105,7 @@ func JointSites(h1, h2 *ssa.Phi) []Site {
 // LoopVars are the loop-carried locals of sanitize, identified by role.
 type LoopVars struct {
 	Skip, Depth, Pending, Stack *ssa.Phi
-	Why                          []string
+	Why                         []string
 }
 
 func headerPhis(h *ssa.BasicBlock) []*ssa.Phi {
